@@ -21,7 +21,7 @@ BASE = dict(
     Reqs=S(2, 4), Vols=S(0, 1, 3), Modes=S("on"), TrigSets=S("none", "final", "partial"),
     TopUps=S(6), MaxSteps=5, MaxSess=1, Limit=100, Pads=S(0), CreateConts=S(0),
     TwoEntries=False, BadRefs=False, WellBehaved=False, AskAfterFinal=True, KnownDebitNoFui=True, Lrsn0=0, Recharges=True, Traffic=S(), SinkAnswers=S(204), AddrKinds=S("none"), ContShapes=S("single"), ChidModes=S(0), UpdNfcs="{FALSE}",
-    Events=False, EvTypes=S(""), Faults=S("none"),
+    Events=False, EvTypes=S(""), Faults=S("none"), BadCreates=S(),
 )
 
 # clause -> invariant of ChfSeqMC that states it on the model
@@ -44,7 +44,7 @@ CLAUSES = {
     "C10": {("C10", "ref_unique"), ("C10", "ref_designates")},
     "C12": {("C12", "create_contract"), ("C12", "update_contract"), ("C12", "release_contract"),
             ("C12", "unknown_is_4xx"), ("C12", "rejection_no_effect"), ("C12", "recharge_contract"),
-            ("C12", "recharge_unknown_notifies")},
+            ("C12", "recharge_unknown_notifies"), ("C12", "malformed_create_rejected")},
 }
 
 def realpad(limit, pad):
@@ -155,6 +155,12 @@ def cfg(pid, tier):
         slices = [
             sl("two-subs", 1200 if q else 10000, Subs=S("1", "2"), MaxSess=2, MaxSteps=4 if q else 5, **dict(base, **small)),
             sl("one-sub", 900 if q else 10000, MaxSess=2, MaxSteps=4 if q else 5, **dict(base, **rich)),
+            # two rating groups (both may be in the debit mode when one of them is recharged)
+            sl("two-rg", 500 if q else 5000, RGs=S("1", "2"), TwoEntries=True, MaxSteps=3 if q else 4,
+               **dict(base, BadRefs=False, SinkAnswers=S(204), TrigSets=S("none", "final"), Pads=S(0), Modes=S("on"), CreateConts=S(0))),
+            # creates that are refused for their content, for known and unknown subscribers, between the other requests
+            sl("bad-create", 500 if q else 5000, BadCreates=S("nonfci", "pdu_noslice", "pdu_noinfo", "badplmn"), MaxSteps=4 if q else 5,
+               **dict(base, BadRefs=True, SinkAnswers=S(204), TrigSets=S("none"), Pads=S(0), Modes=S("off"), CreateConts=S(0))),
         ]
     elif pid in ("C02", "C03"):
         base = dict(Reqs=S(4), Vols=S(2), TopUps=S(), Recharges=False, AcctChoices=S((40, 1)))
@@ -210,7 +216,10 @@ def cfg(pid, tier):
 
 def to_behaviour(hist, bid, padmap):
     setup = hist[0]
-    b = dict(id=bid, lrsn0=setup["lrsn0"], wb=setup["wb"], ues=sorted(setup["ues"]),
+    # how the consumer numbers its invocations is a presentation parameter of the replay (the model does not depend on it):
+    # one counter per behaviour, or -- every second behaviour -- one counter per session (TS 32.290)
+    import zlib
+    b = dict(id=bid, isn="session" if zlib.crc32(bid.encode()) % 2 else "", lrsn0=setup["lrsn0"], wb=setup["wb"], ues=sorted(setup["ues"]),
              accts=sorted(setup["accts"], key=lambda a: (a["u"], a["rg"])), steps=[])
     for st in hist[1:]:
         st = {k: x for k, x in st.items() if k != "sig"}
